@@ -33,6 +33,14 @@ func (vc *VC) resolveMods(sc *SpecScope, c *Contract) (targets []ModTarget, whol
 			}
 		case *SSel:
 			base := vc.evalSpec(sc, x.X)
+			if strings.HasPrefix(x.Name, "$") {
+				comp, GT := vc.ghostField(sc, base, x.Name)
+				ref := base.Term
+				vc.leafComps(comp, GT, 1, func(cn, srt string) {
+					targets = append(targets, ModTarget{comp: cn, sort: srt, lvl: 1, idx: ref, text: m.Text})
+				})
+				continue
+			}
 			if base.T == nil || !isPointer(base.T) {
 				vc.specFail(sc, "modifies %s: base is not a pointer", m.Text)
 			}
